@@ -13,6 +13,10 @@ CHECKS = {
             "TLA+ specs RtmpSession.tla (message-level session, both directions, handshake) and RtmpChunk.tla (chunk-level refinement) model-checked by TLC; every TLC behaviour replayed into two real rtmp.Protocol endpoints with state comparison after each step",
             "TLC checks on the specification that a session never desynchronises and delivers exactly what was sent for every history of Set Chunk Size announcements and boundary lengths (NoDesync, PrefixOk, InFollowsOut, AllDelivered, AppendOnly), shows the invariant is sensitive (deviation run), and every finished behaviour TLC found is executed by the real code after the real handshake under several read segmentations, comparing each delivered message and the projected chunk sizes with the specification",
             "trusts TLC, the transport/replayer and the verif export shim; payloads are patterns; bounds per cfg (<= 4 writes exhaustive, simulation beyond)", "5/C01"),
+    "C02": ("model_checking",
+            "TLA+ spec RtmpChunk.tla: ConformantSend (all header-type/form/interleaving choices of RTMP 1.0 5.3.1) against the reference receiver Decode, model-checked by TLC; every TLC-found wire rendered to bytes by the spec and replayed into rtmp.Protocol.ReadMessage",
+            "TLC proves on bounded families that the specification's conformant sender and reference receiver agree (DecodeOk, Agree) and that each rule violation is rejected; every wire TLC finds (about 11k in quick, 150k+ plus simulation in thorough) is fed as bytes to the real reader under three segmentations and must deliver exactly the specification's messages, timestamps and error/EOF outcome",
+            "trusts TLC, the LD expander and the transcription of RTMP 1.0 section 5.3 in RtmpChunk.tla; sender timestamps < 2^31; no Abort; bounds per family cfg", "5/C02"),
     "C12": ("model_checking",
             "TLA+ spec Avc.tla (TLC: round-trip/reserved-bit invariants) + TLC-enumerated cases replayed into avc package, ISO layout from the spec as oracle",
             "TLC exhaustively checks the AVC container spec (records, samples, NAL units) for self-consistency on small values, enumerates the boundary value matrix, and every enumerated value is replayed into the real marshal/unmarshal code with the spec's byte layout as the independent oracle",
